@@ -181,6 +181,14 @@ class TMapSeq(Ty):
         return [z3.ArraySort(ks, B), z3.ArraySort(ks, I), z3.ArraySort(ks, z3.ArraySort(I, self.elem.comps()[0]))]
 
 
+class TMap(Ty):
+    """immutable view key -> scalar (e.g. a field of the dict's values)"""
+    def __init__(self, k, v):
+        self.k = k; self.v = v
+    def key(self): return (self.k, self.v)
+    def comps(self): return [z3.ArraySort(self.k.comps()[0], B), z3.ArraySort(self.k.comps()[0], self.v.comps()[0])]
+
+
 class TKeySet(Ty):
     """immutable view of a dict's key set"""
     def __init__(self, k):
